@@ -6,6 +6,8 @@ import (
 	"fmt"
 	"os"
 	"path/filepath"
+	"runtime/debug"
+	"runtime/pprof"
 	"sort"
 	"strconv"
 	"strings"
@@ -20,6 +22,7 @@ func (m *multiFlag) String() string     { return strings.Join(*m, ",") }
 func (m *multiFlag) Set(s string) error { *m = append(*m, s); return nil }
 
 func main() {
+	debug.SetGCPercent(1000)
 	if len(os.Args) > 1 && os.Args[1] == "check" {
 		os.Exit(checkMain(os.Args[2:]))
 	}
@@ -37,8 +40,14 @@ func main() {
 		intenc  = flag.Bool("int", false, "integer encoding of bit-vectors")
 		params  multiFlag
 	)
+	cpuprof := flag.String("cpuprofile", "", "write cpu profile")
 	flag.Var(&params, "param", "k=v harness parameter")
 	flag.Parse()
+	if *cpuprof != "" {
+		f, _ := os.Create(*cpuprof)
+		pprof.StartCPUProfile(f)
+		defer pprof.StopCPUProfile()
+	}
 	t0 := time.Now()
 	overlay, err := buildOverlay(*repo, *pkgPat, *hdir, nil)
 	if err != nil {
